@@ -78,6 +78,33 @@ pub open spec fn page_round(size: int, p: int) -> int {
     size + (p - size % p)
 }
 
+/// facts about `page_round` used by the allocator contracts: the result is a multiple of P strictly above
+/// `size`, at most one page beyond the end of the last page that holds data
+pub proof fn lemma_page_round(size: int, p: int)
+    requires
+        size >= 0,
+        p > 0,
+    ensures
+        page_round(size, p) % p == 0,
+        size < page_round(size, p) <= size + p,
+        pages(size, p) * p <= page_round(size, p) <= pages(size, p) * p + p,
+        pages(page_round(size, p), p) * p == page_round(size, p),
+{
+    let q = size / p;
+    let r = size % p;
+    vstd::arithmetic::div_mod::lemma_fundamental_div_mod(size, p);
+    vstd::arithmetic::div_mod::lemma_mod_bound(size, p);  // 0 <= r < p
+    assert(p * q + p == p * (q + 1)) by (nonlinear_arith);
+    assert(page_round(size, p) == p * (q + 1));
+    vstd::arithmetic::div_mod::lemma_mod_multiples_basic(q + 1, p);
+    assert(p * (q + 1) == (q + 1) * p) by (nonlinear_arith);
+    // pages(size) is q (r == 0) or q + 1
+    vstd::arithmetic::div_mod::lemma_fundamental_div_mod_converse(size + p - 1, p, if r == 0 { q } else { q + 1 }, if r == 0 { p - 1 } else { r - 1 });
+    assert(p * q == q * p) by (nonlinear_arith);
+    // pages(page_round) == q + 1
+    vstd::arithmetic::div_mod::lemma_fundamental_div_mod_converse(p * (q + 1) + p - 1, p, q + 1, p - 1);
+}
+
 // ---- C19 ------------------------------------------------------------------------------------------------
 /// "the operating system will grant the lock request".  Uninterpreted and established by NOTHING: it is the
 /// precondition of the functions that are allowed to panic on a refused lock (their signature has no
